@@ -17,7 +17,7 @@ CHECKS = {
                 note="Trusted: z3; my ~1.2 kLOC interpreter (guarded by native replay of every counterexample, native validation of "
                      "solver-chosen accepted/rejected sequences per encoding, reachability twins, unwinding and overflow obligations); "
                      "the reference semantics in vlib/refmodel.py. Bounds: quick L<=5 fail-fast / L<=4 collecting (5/3 on the five "
-                     "widest rules), thorough 8/6 (6/4); plus a state cover (access word of every reference-automaton state + <= 2/3 symbolic "
+                     "widest rules), thorough 10/7 (7/5); plus a state cover (access word of every reference-automaton state + <= 2/3 symbolic "
                      "names) and call-history encodings (the same parent validated before, lengths 1-2/3). Code the merged interpreter cannot "
                      "model exactly is explored path-wise with a coverage obligation; module state is restored before every encoding.",
                 ref="DESIGN.md 3 C01"),
@@ -43,21 +43,22 @@ CHECKS = {
                      "and up to L child names all symbolic, fail-fast and collecting run back to back: z3 shows no exception outside the rule-error "
                      "family escapes fail-fast mode, collecting mode never raises and appends (code, message, node, ...) tuples, and the list is "
                      "empty exactly when fail-fast succeeds. Tree level by composition with C05; depth-100 termination is one concrete run.",
-                note="Bounds: L<=2 children quick, L<=4 (3 on the widest rules) thorough; long child sequences are C01's claim. Same stubs as C02.",
+                note="Bounds: L<=2 children quick, L<=5 (4 on the widest rules) thorough; long child sequences are C01's claim. Same stubs as C02.",
                 ref="DESIGN.md 3 C04"),
     "C05": dict(engine="pybmc", technique=PYBMC,
                 text="For every ordered tree shape up to N nodes, with a symbolic name ({metadata, other}) and an uninterpreted pass/fail outcome per "
                      "node, z3 shows validate.tree accepts iff every node not below a metadata element passes, never visits a node below metadata, "
                      "raises the first failing node's error, and in collecting mode produces the document-order concatenation.",
-                note="N<=5 quick (23 shapes), N<=7 thorough (197 shapes); names range over metadata, three known element names and any other "
+                note="N<=6 quick (65 shapes), N<=9 thorough (2 056 shapes), shapes up to 4 nodes also with one shared id string; names range over metadata, three known element names and any other "
                      "string. validate.node is stubbed by an uninterpreted outcome (that is the property's own abstraction). A restructured traversal the merged interpreter cannot model is explored path-wise with a "
                      "coverage obligation.",
                 ref="DESIGN.md 3 C05"),
     "C10": dict(engine="pybmc", technique=PYBMC,
                 text="Closure: per reachable rule a z3 query over ALL strings for a child the rule allows that is not a known element (all models "
                      "enumerated). Mapping: symbolic element name through the real get_rule. Content rules: symbolic rule-name string through the "
-                     "real dispatch. Satisfiability: z3 synthesises an accepted node per element over already-completable children; the assembled "
-                     "witness tree must pass the real validate.tree. Structural well-formedness is a finite table walk (labelled).",
+                     "real dispatch. Satisfiability: z3 synthesises an accepted node per element over already-completable children, and one per (element, "
+                     "permitted child) containing that child; the assembled witness trees must pass the real validate.tree. Structural "
+                     "well-formedness is a finite table walk (labelled).",
                 note="Complete over the shipped tables. Three closure gaps are recorded known findings (software, protocol, studyAreaDescription).",
                 ref="DESIGN.md 3 C10"),
     "C17": dict(engine="pybmc", technique=PYBMC,
@@ -65,7 +66,7 @@ CHECKS = {
                      "iff the name is not in the rule (ChildNotAllowedError only), the index is within bounds, keeps declared order, and is a valid "
                      "insertion position whenever one exists (reference DFA); is_allowed_child is true exactly for names that occur in some "
                      "valid sequence.",
-                note="L<=5 quick (4 on the widest rules), L<=8 (6) thorough. Rules naming a child twice are outside the quantifier (none today).",
+                note="L<=5 quick (4 on the widest rules), L<=10 (7) thorough; plus pumped sequences (a self-loop of the reference automaton taken 8/12 times). Rules naming a child twice are outside the quantifier (none today).",
                 ref="DESIGN.md 3 C17"),
 
     "C06": dict(engine="crosshair", technique=CH,
